@@ -128,6 +128,7 @@ def coqc_file(rel, timeout=400):
 
 def coq_eval(name, text, timeout=600):
     """Write a scratch cases file, compile it, return (ok, output)."""
+    name = "%s_p%d" % (name, os.getpid())      # concurrent runs of one check must not share a scratch file
     rel = os.path.join("gen", "cases_%s.v" % name)
     path = os.path.join(COQ, rel)
     with open(path, "w") as f:
